@@ -419,10 +419,10 @@ func (w *World) Run(shard int, c *Call) *StepResult {
 // Probe executes a call and then undoes every effect (accounts of the shard, the in-flight bag, ids).
 // With f != nil the dependency calls are counted / made to fail by f.
 func (w *World) Probe(shard int, c *Call, f *Faults) *StepResult {
-	return w.ProbeWith(shard, c, f, nil)
+	return w.ProbeWith(shard, c.Clone(), f, nil)
 }
 
-// ProbeWith is Probe with a callback that sees the world before the effects are undone.
+// ProbeWith is Probe with a callback that sees the world before the effects are undone; it hands c itself to the function.
 func (w *World) ProbeWith(shard int, c *Call, f *Faults, after func(r *StepResult)) *StepResult {
 	s := w.Shards[shard]
 	snap := s.Snapshot()
@@ -432,7 +432,7 @@ func (w *World) ProbeWith(shard int, c *Call, f *Faults, after func(r *StepResul
 	oldF := s.Faults
 	oldCalls := s.Oracle.Calls
 	s.Faults = f
-	r := w.Run(shard, c.Clone())
+	r := w.Run(shard, c)
 	if after != nil {
 		after(r)
 	}
